@@ -1,16 +1,18 @@
 #!/bin/bash
-# roundproc.sh <round-letter> <Cxx...> : confirm the three delivered seeds of each property in scratch worktrees,
-# remove the sub-agent's worktree, then run each kept seed against the check of its property (needs /repo exclusively).
+# roundproc.sh <round-letter> <Cxx...> : confirm the three delivered seeds of each property in scratch worktrees
+# (four at a time), remove the sub-agent's worktree, then run each kept seed against the check of its property
+# (serially: that needs /repo exclusively).
 R=$1; shift
 cd "$(dirname "$0")/.."
-for p in "$@"; do
-  for n in 1 2 3; do
-    [ -f /tmp/seedout/$p$R/patch$n.diff ] || { echo "MISSING $p$R-$n"; continue; }
-    race=""; head -3 /tmp/seedout/$p$R/demo${n}_test.go | grep -q "RACE" && race=1
-    SEED_RACE=$race tools/confirm_seed.sh $p$R $n 2>&1 | grep -E "RESULT|REJECTED" | grep -v "demo_with_patch_rc=1 demo_without_rc=0" | cut -c1-220
-  done
-  git -C /repo worktree remove --force /tmp/wt/$p$R 2>/dev/null
-done
+one() {
+  p=$1; n=$2; R=$3
+  [ -f /tmp/seedout/$p$R/patch$n.diff ] || { echo "MISSING $p$R-$n"; return; }
+  race=""; head -3 /tmp/seedout/$p$R/demo${n}_test.go | grep -q "RACE" && race=1
+  SEED_RACE=$race tools/confirm_seed.sh $p$R $n 2>&1 | grep -E "RESULT|REJECTED" | grep -v "demo_with_patch_rc=1 demo_without_rc=0" | cut -c1-220
+}
+export -f one
+for p in "$@"; do for n in 1 2 3; do echo "$p $n $R"; done; done | xargs -P 4 -L 1 bash -c 'one $0 $1 $2'
+for p in "$@"; do git -C /repo worktree remove --force /tmp/wt/$p$R 2>/dev/null; done
 for p in "$@"; do
   for n in 1 2 3; do
     [ -d seeded/$p$R-$n ] || continue
